@@ -477,8 +477,12 @@ class Gen:
             # apply to the model; drop operations the model rejects
             try:
                 apply_op(self.m, op, Env(crash_at=op.get('abort_at'), cache=self.cache))
-            except OpRejected:
-                continue
+            except OpRejected as ex:
+                if not str(ex).startswith('commit refused'):
+                    continue
+                # a transaction that the library refuses as a whole at commit time stays in the plan: refusing it must
+                # not leave any trace
+                op['refused_by_model'] = True
             except InjectedCrash:
                 self.retry = {kk: copy.deepcopy(vv) for kk, vv in op.items() if kk not in ('abort_at', 'id', 'prefetch')}
                 # the model is unchanged; handles whose re-creation was aborted can be re-created later
